@@ -23,13 +23,40 @@ const FAMS: &[(u32, Fam)] = &[(4, Fam::U), (3, Fam::K), (2, Fam::L0), (1, Fam::L
 
 fn strategy(_tier: Tier) -> BoxedStrategy<Case> {
     let base = gen::case_strategy(GenOpts { max_n: 60, big_n_weight: 2, fams: FAMS.to_vec(), max_offset_log2: 10, max_aspect_log2: 6, ..GenOpts::default() });
-    (base, proptest::collection::vec(0.0f64..1.0, 8), any::<u32>())
-        .prop_map(|(mut c, a, seed)| {
+    // 2 % ring inputs (family "R"): a generator at the centre of a ring of m = 12 .. 130 coplanar
+    // neighbours (a prism with 2 m vertices after the ring has clipped it) and a farther
+    // neighbour straight above whose bisector removes all m top vertices in ONE clip - removed
+    // sets an order of magnitude larger than anything the other families produce
+    let ring = (12usize..=130, 0.05f64..0.2, 0.0f64..1.0, prop_oneof![Just(0.0f64), 0.0f64..0.05], 1.2f64..2.5).prop_map(|(m, radius, rot, jitter, lift)| ring_case(m, radius, rot, jitter, lift));
+    (prop_oneof![49 => base, 1 => ring], proptest::collection::vec(0.0f64..1.0, 8), any::<u32>())
+        .prop_map(|(mut c, mut a, seed)| {
+            if c.family == "R" {
+                a[0] = 0.; // the cell of the central generator
+            }
             c.aux_f = a;
             c.aux_i = vec![seed as i64];
             c
         })
         .boxed()
+}
+
+/// Ring input: generator 0 at the centre of the unit cube, m generators on a (jittered) circle of
+/// the given radius around it in the plane z = 0.5, one generator straight above at `lift` radii.
+pub fn ring_case(m: usize, radius: f64, rot: f64, jitter: f64, lift: f64) -> Case {
+    let mut c = Case { dim: 3, periodic: false, family: "R".into(), ..Case::default() };
+    c.anchor = [0.; 3];
+    c.width = [1.; 3];
+    c.gens.push([0.5, 0.5, 0.5]);
+    for k in 0..m {
+        let phi = 2. * std::f64::consts::PI * (k as f64 + rot) / m as f64;
+        // deterministic radial jitter in [1 - jitter, 1 + jitter]
+        let h = ((k as u64).wrapping_mul(0x9E37_79B9_7F4A_7C15) >> 11) as f64 / (1u64 << 53) as f64;
+        let r = radius * (1. + jitter * (2. * h - 1.));
+        c.gens.push([0.5 + r * phi.cos(), 0.5 + r * phi.sin(), 0.5]);
+    }
+    c.gens.push([0.5, 0.5, (0.5 + lift * radius * 1.06).min(1.)]);
+    gen::repair_distinct(&mut c);
+    c
 }
 
 type Triple = [usize; 3];
@@ -159,7 +186,8 @@ pub fn check(c: &Case, cs: &mut CaseStats) -> Result<(), String> {
     }
     let generators = hooks::make_generators(&locs, c.dimensionality());
     // candidate sequence of the production iterator for the ORIGINAL generators
-    let cap = 40usize;
+    let ring = c.family == "R";
+    let cap = if ring { n } else { 40usize };
     let seq = hooks::nn_sequence(&c.gens_v(), i, c.dimensionality(), c.periodic, w, cap + 1);
     if seq.is_empty() || seq[0].0 != i {
         return Err("the candidate sequence does not start with the generator itself (C17)".into());
@@ -173,7 +201,8 @@ pub fn check(c: &Case, cs: &mut CaseStats) -> Result<(), String> {
         HalfSpace::new(dx / dist, 0.5 * (loc + ngb), Some(j), shift)
     };
     // ---- the history: K clips in builder order
-    let k_clips = ((c.aux_f[1] * 13.) as usize).min(12).min(seq.len());
+    // (ring inputs: the whole ring clips first, the generator above it is the next plane)
+    let k_clips = if ring { n.saturating_sub(2).min(seq.len()) } else { ((c.aux_f[1] * 13.) as usize).min(12).min(seq.len()) };
     let mut cell = hooks::cell_init(loc, i, &grid);
     let mut twin = hooks::cell_init(loc, i, &grid); // replayed with a permutation before every clip
     for (j, s) in &seq[..k_clips] {
@@ -188,7 +217,7 @@ pub fn check(c: &Case, cs: &mut CaseStats) -> Result<(), String> {
     }
     cs.count("history_clips", k_clips as u64);
     // ---- the next plane
-    let use_extra = extra_ok && c.aux_f[6] < 0.6;
+    let use_extra = extra_ok && c.aux_f[6] < 0.6 && !ring;
     let plane = if use_extra {
         half_space(n, None)
     } else if k_clips < seq.len() {
@@ -221,7 +250,8 @@ pub fn check(c: &Case, cs: &mut CaseStats) -> Result<(), String> {
         0 => "0".to_string(),
         1..=2 => "1-2".to_string(),
         3..=7 => format!("{r}"),
-        _ => ">7".to_string(),
+        8..=64 => ">7".to_string(),
+        _ => ">64".to_string(),
     }));
     cs.max("max_removed", r as f64);
     if r == 0 {
@@ -321,12 +351,12 @@ pub fn check(c: &Case, cs: &mut CaseStats) -> Result<(), String> {
 pub fn def() -> PropDef {
     PropDef {
         id: "C18",
-        rule: "histories: for a generated input (uniform, clustered, exact and perturbed lattices, wall points, co-spherical, coplanar, dyadic, shared-coordinate; all dimensionalities, periodic or not, n <= 60) and a generated generator index: cell_init + the first K in 0..12 candidates of the production neighbour iterator clipped through ConvexCell::clip_by_plane (reachable cell), replayed a second time with the vertex array shuffled and every plane triple rotated before each clip; then one more plane (the next candidate, or in 60% of the cases the bisector with an extra site at 1e-3..1 box widths from the generator, which removes many vertices). The final clip is executed for ALL r! storage orders of the r removed vertices when r <= 7 (2000 sampled orders above), kept vertices shuffled, every triple rotated at random; plus all permutations of the whole vertex array when it has <= 7 entries (300 sampled otherwise). oracle: identical set of vertices as rotation-normalised cyclic plane triples, volume equal up to rounding (eps_pos x conditioning x surface bound + 1e-11 relative), no panic, closed surface (each directed plane pair once, its opposite once, three distinct planes per vertex). non-trivial: r >= 3 (for 1-2 removed vertices the greedy search has no choice); distinct by case hash; evidence carries the distribution of r and the number of permuted clips.",
+        rule: "histories: for a generated input (uniform, clustered, exact and perturbed lattices, wall points, co-spherical, coplanar, dyadic, shared-coordinate; all dimensionalities, periodic or not, n <= 60) and a generated generator index: cell_init + the first K in 0..12 candidates of the production neighbour iterator clipped through ConvexCell::clip_by_plane (reachable cell), replayed a second time with the vertex array shuffled and every plane triple rotated before each clip; then one more plane (the next candidate, or in 60% of the cases the bisector with an extra site at 1e-3..1 box widths from the generator, which removes many vertices). The final clip is executed for ALL r! storage orders of the r removed vertices when r <= 7 (2000 sampled orders above), kept vertices shuffled, every triple rotated at random; plus all permutations of the whole vertex array when it has <= 7 entries (300 sampled otherwise). oracle: identical set of vertices as rotation-normalised cyclic plane triples, volume equal up to rounding (eps_pos x conditioning x surface bound + 1e-11 relative), no panic, closed surface (each directed plane pair once, its opposite once, three distinct planes per vertex). non-trivial: r >= 3 (for 1-2 removed vertices the greedy search has no choice); distinct by case hash; evidence carries the distribution of r and the number of permuted clips. 2 % of the cases are ring inputs (family R): a generator at the centre of a ring of 12..130 coplanar neighbours (exact or radially jittered by up to 5 %) that have all clipped the cell, and the bisector with a generator straight above, which removes all top vertices of the prism in one clip (removed sets up to 130 vertices, label removed=>64).",
         strategy,
         check,
         cases: |t| t.pick(8000, 200_000),
         profiles: &["release"],
-        required: &["removed=3", "removed=5", "removed=7", "removed=>7", "plane:extra-site", "plane:next-candidate", "dim1", "dim2", "dim3", "periodic"],
+        required: &["removed=3", "removed=5", "removed=7", "removed=>7", "removed=>64", "plane:extra-site", "plane:next-candidate", "dim1", "dim2", "dim3", "periodic"],
         fixed: None,
         assumptions: &["the removed set is taken from the clip in the builder's own storage order; disconnected removed sets (never observed) are outside the property's quantifier and only counted", "random orders above 7 removed vertices come from a xorshift generator seeded by a generated value (pure function of the case)"],
     }
